@@ -50,4 +50,6 @@ func runC11(r *Report) {
 	ruleSentinelProducible(r, "pq", "sstables", "memstore", "simpledb")
 	rulePanicNotParked(r)
 	ruleJoin(r)
+	ruleErrorIsLooksAtTarget(r)
+	ruleTornRecordIsNotEOF(r)
 }
